@@ -184,7 +184,7 @@ def summary_equal(a, ka, b, kb):
         same = cell_ident(a, b, ka)
     else:
         xa, xb = num(a, ka), num(b, kb)
-        if xa is not None and xb is not None: same = xa == xb
+        if xa is not None and xb is not None: same = z3.fpEQ(xa, xb)       # across dtypes: the same number (an integer has no -0)
         elif a is None or b is None: same = T(False)
         else: same = cell_ident(a, b, "O") if ka == kb else T(False)
     return z3.Or(z3.And(na_a, na_b), z3.And(z3.Not(na_a), z3.Not(na_b), same))
